@@ -210,6 +210,8 @@ class Shapes:
             return self.top
         if tag == "comp":
             return STR
+        if tag == "ucomp":
+            return frozenset({NE}) if any(not cs for cs, _v in t[2]) else (STR if t[2] else frozenset({E}))
         if tag == "global":
             r = self.model.resolve_global(t[1], t[2])
             if r and r[0] == "value":
